@@ -135,10 +135,31 @@ def in_process_history(ctx: Ctx, base: dict) -> dict:
                 e["supportsCustomValues"] = True
             if evolve.schema_valid(d):
                 edge_variants.append(d)
+    # ... and general unions whose alternatives overlap (label-only as well: the Python package would need a hand-written
+    # hook for them): a literal-discriminated structure next to an open object, next to a structure that declares the same
+    # property as a plain string, next to a map - a value that is wrong for one alternative may be right for its sibling
+    def union_variant(sibling: dict, extra_structs: list) -> dict:
+        d = copy.deepcopy(small)
+        S_ = {"kind": "base", "name": "string"}
+        d["structures"] += [{"name": "VfShellTask", "properties": [{"name": "kind", "type": {"kind": "stringLiteral", "value": "shell"}},
+                                                                     {"name": "command", "type": S_}, {"name": "args", "type": {"kind": "array", "element": S_}, "optional": True}]},
+                            {"name": "VfRunTaskParams", "properties": [{"name": "task", "type": {"kind": "or", "items": [{"kind": "reference", "name": "VfShellTask"}, sibling]}}]}] + extra_structs
+        d["requests"].append({"method": "vf/runTask", "messageDirection": "clientToServer", "params": {"kind": "reference", "name": "VfRunTaskParams"},
+                              "result": {"kind": "base", "name": "null"}})
+        return d
+    S__ = {"kind": "base", "name": "string"}
+    union_variants = [
+        union_variant({"kind": "reference", "name": "VfExtTask"}, [{"name": "VfExtTask", "properties": []}]),
+        union_variant({"kind": "reference", "name": "VfLooseTask"}, [{"name": "VfLooseTask", "properties": [{"name": "kind", "type": S__}, {"name": "command", "type": S__},
+                                                                                                         {"name": "args", "type": {"kind": "array", "element": S__}, "optional": True}]}]),
+        union_variant({"kind": "map", "key": S__, "value": S__}, []),
+        union_variant({"kind": "reference", "name": "LSPObject"}, []),
+    ]
+    union_variants = [d for d in union_variants if evolve.schema_valid(d)]
     pick: List[int] = []
     mini(st.lists(st.integers(0, max(0, len(edge_variants) - 1)), min_size=6, max_size=6), 2, (ctx.seed, "C17", "edges"), lambda xs: pick.append(xs))
     chosen = edge_variants if not ctx.quick else [edge_variants[i] for i in dict.fromkeys(pick[-1])] if edge_variants else []
-    rounds = rounds + chosen
+    rounds = rounds + chosen + (union_variants if not ctx.quick else union_variants[(ctx.seed % 2)::2])
 
     def child(rounds_):
         import gc
